@@ -87,7 +87,7 @@ CONF = {
     },
     "C09": {
         "rule": "rapid-generated replacement attempts inside L2 histories (originals: own, someone else's, foreign-domain, any sent, forged own, forged module-sender, user-sent burn, short, own with tampered attestation; attester rotation and pausing in between); oracle: on success every required condition recomputed independently (reference verifier under current attesters), decoded replacement vs decoded original, empty write set / ledger log / store diff; non-trivial = successful replacement or rejection with exactly one required condition false; distinct by emitted bytes resp. (false condition, original class)",
-        "quick": {"rapid": [("TestC09", 400, 2)]},
+        "quick": {"rapid": [("TestC09", 400, 4)]},
         "thorough": {"rapid": [("TestC09", 10000, 16)]},
     },
     "C02": {
@@ -97,7 +97,7 @@ CONF = {
     },
     "C03": {
         "rule": "rapid-generated receive attempts (a) bounded-exhaustive: all 2^12 subsets of {P1,P2,P4,P5,P6,P7,M1..M6} x 4 value realisations for module-addressed messages, all 2^6 subsets of the P conditions x 4 for other recipients, all 116 header truncations, each through the real message router on a discarded branch (success <=> empty subset; failure => no store changed); (b) inside L2 histories (admin/ledger ops change pause flags, attesters, pairs, messengers, allowance, blacklist, minter status); each attempt falsifies a drawn subset of {P2..P7,M2..M6} with several realisations per condition and P1/M1/M6 through state; oracle: success <=> all applicable conditions (recomputed from bytes and model state, attestation by the independent verifier); non-trivial = attempt with a >=116-byte message whose condition vector was not seen before in the case; distinct by condition vector",
-        "quick": {"rapid": [("TestC03", 400, 2)], "plain": ["TestC03Enum"]},
+        "quick": {"rapid": [("TestC03", 400, 4)], "plain": ["TestC03Enum"]},
         "thorough": {"rapid": [("TestC03", 8000, 16)], "plain": ["TestC03Enum"]},
     },
     "C08": {
